@@ -994,11 +994,13 @@ func first(a, _ []byte) []byte { return a }
 //@     ghost q0 = len(q)
 //@     invariant stackOK(q) && 0 - 1 <= i && i <= 255
 //@     invariant[count] len(q) == q0 + cntNZ(n48.keys, 256) - cntNZ(n48.keys, i + 1)
+//@     invariant[order] forallp(x, 0, 256, implies(x > i && n48.keys[x] != 0, q[q0 + cntNZ(n48.keys, 256) - cntNZ(n48.keys, x + 1)].pointer == n48.children[n48.keys[x] - 1].pointer))
 //@     exit_ensures[every_child_pushed] len(q) == q0 + cntNZ(n48.keys, 256)
 //@   loop 5 (i)
 //@     ghost q0 = len(q)
 //@     invariant stackOK(q) && 0 - 1 <= i && i <= 255
 //@     invariant[count] len(q) == q0 + cntP(n256.children, 256) - cntP(n256.children, i + 1)
+//@     invariant[order] forallp(x, 0, 256, implies(x > i && n256.children[x].pointer != nil, q[q0 + cntP(n256.children, 256) - cntP(n256.children, x + 1)].pointer == n256.children[x].pointer))
 //@     exit_ensures[every_child_pushed] len(q) == q0 + cntP(n256.children, 256)
 
 //@ func backward$1
@@ -1024,11 +1026,13 @@ func first(a, _ []byte) []byte { return a }
 //@     ghost q0 = len(q)
 //@     invariant stackOK(q) && 0 <= i && i <= 256
 //@     invariant[count] len(q) == q0 + cntNZ(n48.keys, i)
+//@     invariant[order] forallp(x, 0, 256, implies(x < i && n48.keys[x] != 0, q[q0 + cntNZ(n48.keys, x)].pointer == n48.children[n48.keys[x] - 1].pointer))
 //@     exit_ensures[every_child_pushed] len(q) == q0 + cntNZ(n48.keys, 256)
 //@   loop 5 (i)
 //@     ghost q0 = len(q)
 //@     invariant stackOK(q) && 0 <= i && i <= 256
 //@     invariant[count] len(q) == q0 + cntP(n256.children, i)
+//@     invariant[order] forallp(x, 0, 256, implies(x < i && n256.children[x].pointer != nil, q[q0 + cntP(n256.children, x)].pointer == n256.children[x].pointer))
 //@     exit_ensures[every_child_pushed] len(q) == q0 + cntP(n256.children, 256)
 
 //@ func filter$1
